@@ -10,7 +10,7 @@ if HERE not in sys.path:
 from .world import World
 from .contract import Registry
 
-CONTRACT_MODULES = ['checks', 'rules', 'external', 'enforce', 'deprecated', 'validate', 'parser', 'loader', 'shell']
+CONTRACT_MODULES = ['checks', 'rules', 'external', 'enforce', 'deprecated', 'validate', 'parser', 'loader', 'shell', 'generator']
 
 
 def build():
